@@ -1437,7 +1437,7 @@ def render(tokens, model=None):
     return ''.join(out)
 
 
-@prim('panic_fmt', 'panicking::panic_fmt')
+@prim('panic_fmt', 'panicking::panic_fmt', 'rt::panic_fmt')
 def _(ex, a):
     ex.panic_tokens = list(a[0].f)
     raise RustPanic('panic: ' + render(a[0].f))
